@@ -103,6 +103,8 @@ func runBac(termInfo, chipInfo, otherInfo, source string, seed int64, termRand f
 	if ok, err := s.Nfc.SelectAid(chipsim.AIDLDS1); err != nil || !ok {
 		core.Infra("C05: SELECT application failed: %v", err)
 	}
+	// the configured READ size is a property of file reads: BAC's own commands do not depend on it
+	s.Nfc.SetMaxLe([]int{256, 1, 8, 16, 39, 40, 224, 65536}[int(uint64(seed)>>1)%8])
 	var rndIc []byte
 	kEncC, kMacC := chipsim.BACKeys(chipInfo)
 	kEncO, kMacO := chipsim.BACKeys(otherInfo)
@@ -162,6 +164,14 @@ func runBac(termInfo, chipInfo, otherInfo, source string, seed int64, termRand f
 						}
 					case 3:
 						g[lo+rnd.Intn(n)] ^= 0x81
+					}
+					return g
+				case "reflect":
+					// the terminal's own command data (E_IFD || M_IFD), as it went over the link, comes back
+					ex := l.Exchanges()
+					cmd := ex[len(ex)-1].Cmd
+					if len(cmd) >= 5+40 {
+						return append(append([]byte{}, cmd[5:45]...), 0x90, 0x00)
 					}
 					return g
 				case "wrongifd", "wrongic":
@@ -249,8 +259,13 @@ func C05(c *core.Ctx) {
 		t := v.([]any)
 		rows = append(rows, row{core.Str(t[1]), core.Str(t[2]), core.Str(t[3]), core.Str(t[4])})
 	}
-	if len(rows) != 36 {
-		core.Infra("C05: expected 36 scenarios, got %d", len(rows))
+	if r2, err := c.TLC(core.TLCOpts{Module: "MC_Bac", Cfg: "MC_Bac_anyorder.cfg", Workers: 1}); err != nil {
+		core.Infra("%v", err)
+	} else if r2.OK {
+		core.Infra("MC_Bac_anyorder: expected the reflected cryptogram to violate Soundness, found no counterexample")
+	}
+	if len(rows) != 40 {
+		core.Infra("C05: expected 40 scenarios, got %d", len(rows))
 	}
 	c.Exhaustive = true
 	infos := map[string]string{"m1": "L898902C<369080619406236", "m2": chipsim.MRZInformation("D23145890734", "340712", "950712")}
